@@ -20,6 +20,13 @@ class G:
         self.features = set()
 
     def text(self):
+        """declarations top-down, or bottom-up when [bottom_up] is set (a quarter of the generated grammars)"""
+        lines = self.lines()
+        if getattr(self, 'bottom_up', False):
+            lines = list(reversed(lines))
+        return '\n'.join(lines) + '\n'
+
+    def lines(self):
         out = []
         out.append('token ' + ' '.join(self.tokens) + ';')
         if self.skip:
@@ -31,7 +38,7 @@ class G:
             out.append('part ' + ' '.join(self.parts) + ';')
         for name, elided, rx in self.rules:
             out.append('%s%s: %s;' % (name, '^' if elided else '', show(rx, 0) if rx is not None else ''))
-        return '\n'.join(out) + '\n'
+        return out
 
     def text_permuted(self, rng):
         """the same declarations in a random order (token list split into several declarations)"""
@@ -58,7 +65,10 @@ class G:
 
     def text_reversed(self):
         """the same declarations in exactly the reverse order (rules bottom-up, directives last)"""
-        return '\n'.join(reversed(self.text().strip().split('\n'))) + '\n'
+        lines = self.lines()
+        if not getattr(self, 'bottom_up', False):
+            lines = list(reversed(lines))
+        return '\n'.join(lines) + '\n'
 
     def rule(self, name):
         for n, e, r in self.rules:
@@ -190,6 +200,7 @@ class Gen:
             g.rules[0] = (n0, e0, r0)
         if g.right:
             g.features.add('right')
+        g.bottom_up = rng.random() < 0.25
         return g
 
     def fresh_tok(self):
